@@ -19,7 +19,7 @@ RULE = ('generated specs with defaults on every defaultable type (boundary liter
 ASSUMPTIONS = ['For Bytes / Timestamp defaults only acceptance of the exposed default is judged '
                '(the Python value a string literal denotes is not documented).']
 
-C10_CFG = dict(alias_tag_defaults=True, omitted=False, schema='plain', union_struct_bias=True, max_ns=3, max_types=6, max_routes=2, examples=True,
+C10_CFG = dict(alias_tag_defaults=True, alias_nesting_bias=True, omitted=False, schema='plain', union_struct_bias=True, max_ns=3, max_types=6, max_routes=2, examples=True,
                bytes_ts_defaults=True, risky_literals=3)
 
 
